@@ -3,7 +3,13 @@
    models.py by the correspondence runs (and, for the per-variable rules, by bridge/VarsBridge.v). *)
 From Coq Require Import List ZArith Bool Arith.
 From PV Require Import Xnum Select PyLib Argsort Vars Vars_proofs Task_proofs.
+From PVGen Require Import GenHyper.
 From PVBridge Require Import VarsBridge.
+
+(* the description is recomputed from the variables on every call (REGENERATED shape of Task.get_bounds: fresh arrays on every return path), so it cannot drift from
+   them through a caller - or a numeric kernel - editing an earlier answer in place *)
+Theorem C14_bounds_recomputed_each_call : gen_task_bounds_fresh = true.
+Proof. reflexivity. Qed.
 
 Theorem C14_dimension : forall t, dimension t = list_sum (map (fun nv => size (snd nv)) t).
 Proof. exact dimension_is_sum. Qed.
